@@ -109,9 +109,10 @@ static ChildResult in_child(F fn)
       for(int s : {SIGSEGV, SIGBUS, SIGFPE, SIGILL, SIGABRT}) sigaction(s, &sa, 0);
       // a runaway step is cut by CPU time (a loaded machine must not look like a hang); wall-clock alarm only as a back-stop
       struct rlimit rl;
-      rl.rlim_cur = ASAN ? 5 : 2;
+      rl.rlim_cur = ASAN ? 4 : 1;
       rl.rlim_max = rl.rlim_cur + 1;
       setrlimit(RLIMIT_CPU, &rl);
+      if(!ASAN) { rl.rlim_cur = rl.rlim_max = (rlim_t)1 << 31; setrlimit(RLIMIT_AS, &rl); }   // runaway loops over garbage Rationals must not eat the machine
       signal(SIGXCPU, SIG_DFL);
       signal(SIGALRM, SIG_DFL);
       alarm(120);
@@ -2524,6 +2525,9 @@ struct Alg
       add("SV.remove(n,m)", NS, 3, 3, [](Ctx & c, const std::string & cs, int i, int j, int k)
       {
          const SRep& r = g_srep[i]; int sz = (int)r.order.size(); if(j > k || k >= sz) return;
+         // the runaway class (range reaches the last nonzero) does not depend on the order of the nonzeros: it is run for the
+         // ascending representation of each pattern only (every such run costs a child process that has to be killed)
+         if(k == sz - 1 && (!r.sorted || r.zero)) { c.count(std::string(N::tag()) + ".SV.remove(n,m)_runaway_instances_not_run_for_permuted_representations"); return; }
          c.count(std::string(N::tag()) + ".SV.remove(n,m)_cases");
          std::string tg = (sz - 1 - k < k - j + 1) ? (k == sz - 1 ? "|range-reaches-last-nonzero" : "|fewer-nonzeros-behind-than-removed") : "|enough-nonzeros-behind";
          D3 w = dense(r.p); for(int t = j; t <= k; ++t) w[r.order[t]] = 0;
